@@ -124,7 +124,7 @@ let has_prefix p s = String.length s >= String.length p && String.sub s 0 (Strin
 let handle (x : sexp) : (string * string) list =
   match x with
   | L (A "c17" :: A _ :: L [A "parse-error"] :: _) -> [("ok", "tr parse-error")]
-  | L [A "c17"; A mode; s_x; parse_x; L [A "merged"; merged_x]; L [A "gen"; gen_x]; L [A "conv"; conv_x]; L [A "engine"; eng_x]; L (A "features" :: _)] ->
+  | L [A "c17"; A mode; s_x; parse_x; L [A "merged"; merged_x]; L [A "gen"; gen_x]; L [A "conv"; conv_x]; L (A "engine" :: eng_items); L (A "features" :: _)] ->
     let res = ref [] in
     let add st d = res := (st, d) :: !res in
     (match parse_x with
@@ -192,10 +192,10 @@ let handle (x : sexp) : (string * string) list =
        | L [A "panic"; S m], _ -> add "specfail" (Printf.sprintf "roundtrip violated=[%s] converter-panic %s" vs m)
        | _ -> ())
     end;
-    (match eng_x with
+    List.iter (function
      | A "ok" | L [A "skipped"; _] -> ()
      | L [A "mismatch"; S m] -> add "specfail" ("engine_introspection " ^ m)
-     | _ -> add "error" "engine field");
+     | _ -> add "error" "engine field") eng_items;
     let nontrivial = wf && nontrivial_b s && mode <> "base" in
     if !res = [] then [("ok", (if nontrivial then "nt" else "tr") ^ (if viol = [] then " clean" else " lossy"))] else List.rev !res
   | _ -> [("error", "unrecognised case")]
